@@ -36,7 +36,8 @@ RULE = (
     "reduction) ; always 4 fixed adversarial policies without reduction. "
     "Oracle per schedule: no deadlock/livelock, no exception, output names "
     "and bit-identical values vs. the reference evaluator on the "
-    "unpartitioned global graph (itself cross-checked against NumPy), no read "
+    "unpartitioned global graph (itself cross-checked against NumPy; a "
+    "sample also with every part compiled by loopy+gcc), no read "
     "of a name absent from the executor's context, no input name left in the "
     "context, no message left unmatched/unconsumed.  non-trivial = >= 2 "
     "ranks, >= 2 messages, >= 2 parts on some rank and >= 2 distinct "
@@ -53,7 +54,11 @@ ASSUMPTIONS = [
     "and only ever add posted messages), see pvf/shim/mpi4py/MPI.py",
     "part programs are reference-evaluator closures called with the "
     "BoundProgram calling convention; pyopencl.array.to_device is replaced "
-    "by a host copy; no loopy code generation in this property (C01/C02)",
+    "by a host copy.  For a sample (every 15th program quick, every 10th "
+    "thorough) every part is additionally sent through pt.generate_loopy (C "
+    "target), gcc and executed natively under one schedule; that sub-check "
+    "counts only when the same expressions compile and run correctly "
+    "unpartitioned (class compiled_parts:*)",
     "verify_distributed_partition is not called here (C09 checks it), so a "
     "defect there does not mask execution defects",
     "send and receive shapes/dtypes always agree (generator invariant)",
@@ -62,9 +67,10 @@ ASSUMPTIONS = [
 
 def plan(tier: str) -> dict:
     if tier == "thorough":
-        return {"shards": 16, "examples": 190, "max_leaves": 3000,
-                "n_random": 200}
-    return {"shards": 16, "examples": 24, "max_leaves": 300, "n_random": 40}
+        return {"shards": 16, "examples": 700, "max_leaves": 3000,
+                "n_random": 200, "compiled_every": 10}
+    return {"shards": 16, "examples": 90, "max_leaves": 300, "n_random": 40,
+            "compiled_every": 15}
 
 
 # {{{ oracle for one execution
@@ -154,7 +160,9 @@ def check_exec(out, model, builds, partitions) -> Failure | None:
 
 
 def reference(case, builds):
-    """-> (model, skip reason | None)"""
+    """-> (model, skip reason | None); the NumPy values are left in
+    ``reference.vals`` for the sampled generated-code check."""
+    reference.vals = None
     try:
         model = distsim.model_outputs(builds)
     except (distsim.ModelError, RefUnsupported, RefOutOfBounds) as e:
@@ -170,7 +178,57 @@ def reference(case, builds):
                     or not np.array_equal(a, b, equal_nan=True):
                 return None, ("reference evaluator and NumPy disagree on the "
                               f"unpartitioned graph ({s['nodes'][i]['op']})")
+    reference.vals = vals
     return model, None
+
+
+def compiled_check(case, builds, partitions, model, vals):
+    """generate_code_for_partition-equivalent: every part through
+    pt.generate_loopy (C target) + gcc, one execution.  A failure counts only
+    if the same expressions compile and run correctly *unpartitioned* (what
+    loopy cannot do at all is C01's business).  -> (Failure | None, status)"""
+    from pvf import cexec
+    try:
+        lc = distsim.local_case(case, vals)
+        lvals = distgen.eval_np_case(lc)
+        for b, s in zip(distgen.build_case(lc), lc["ranks"]):
+            knl = cexec.generate_and_compile(b.outputs)
+            bound = getattr(knl.bp, "bound_arguments", {}) or {}
+            res = knl(**{k: v for k, v in b.inputs.items()
+                         if k in knl.kernel.arg_dict and k not in bound})
+            for k, i in s["outputs"]:
+                w = lvals[b.rank][i].a
+                if res[k].shape != w.shape or not np.array_equal(
+                        res[k], w, equal_nan=True):
+                    return None, "baseline-mismatch"
+    except cexec.HarnessError:
+        raise
+    except Exception as e:  # noqa: BLE001
+        return None, f"baseline-fails:{type(e).__name__}"
+    try:
+        prgs = [distsim.CompiledPrograms(b.rank, p)
+                for b, p in zip(builds, partitions)]
+    except cexec.HarnessError:
+        raise
+    except Exception as e:  # noqa: BLE001
+        if "cache collision detected" in str(e) and "InputGatherer" in str(e):
+            # generate_loopy strips ImplStored from every output *name*
+            # separately; one stored array under two names (which parts have
+            # routinely: 'out0' and '_pt_dist_id_N') then collides with its
+            # own copy.  A code generation defect with or without partitioning
+            # (pt.generate_loopy({"a": e, "b": e}) with e ImplStored); no
+            # verdict here.
+            return None, "no-verdict:generate_loopy-two-names-ImplStored"
+        return Failure("part-codegen", "the unpartitioned expressions compile "
+                       "and run, but a part does not: "
+                       f"{type(e).__name__}: {str(e)[:300]}",
+                       f"{type(e).__name__}|{exc_site(e)}"), "fail"
+    out = distsim.execute_compiled(builds, partitions, prgs)
+    f = check_exec(out, model, builds, partitions)
+    if f is not None:
+        f.kind = "compiled-" + f.kind
+        return f, "fail"
+    return None, "ok"
 
 
 def partition_failure(po, what="partition") -> Failure | None:
@@ -214,7 +272,8 @@ def explore_execution(case, builds, partitions, model, *, max_leaves, n_random,
     return None
 
 
-def case_oracle(case, *, max_leaves=300, n_random=40, seed=1):
+def case_oracle(case, *, max_leaves=300, n_random=40, seed=1,
+                compiled=False):
     """-> (Failure | None, info)"""
     info: dict = {}
     distsim.install()
@@ -238,6 +297,9 @@ def case_oracle(case, *, max_leaves=300, n_random=40, seed=1):
         f = explore_execution(case, builds, partitions, model,
                               max_leaves=max_leaves, n_random=n_random,
                               seed=seed, info=info)
+        if f is None and compiled:
+            f, info["compiled"] = compiled_check(case, builds, partitions,
+                                                 model, reference.vals)
         return f, info
 
 
@@ -276,11 +338,17 @@ def run_shard(shard: int, nshards: int, seed: int, tier: str) -> ShardResult:
     res.extra["programs_exhaustive"] = 0
     res.extra["programs_sampled"] = 0
 
+    k = [0]
+
     def body(case):
+        k[0] += 1
         f, info = case_oracle(case, max_leaves=pl["max_leaves"],
                               n_random=pl["n_random"],
-                              seed=seed % (2 ** 31))
+                              seed=seed % (2 ** 31),
+                              compiled=k[0] % pl["compiled_every"] == 0)
         res.evaluations += 1
+        if "compiled" in info:
+            res.count("compiled_parts:" + info["compiled"])
         if "skip" in info:
             res.skip(info["skip"][:80])
             return
